@@ -85,8 +85,9 @@ def check(ctx: Ctx) -> None:
     K.r_two_phase(ctx, "R06.1")
     K.r_who_cancel(ctx, "R06.3")
     S.r_handoff(ctx, "R02.1")
-
-
+    # stop() reads the running registry: a task overwritten by another one with the same id can never be stopped (id discipline shared with C11)
+    from . import naming as _N
+    _N.r_id_discipline(ctx, "R14.9")
 def id_value_steers(ctx: Ctx, f):
     """(test step, variable) when a test of stop() - or of a helper spliced into it - compares by order, or after arithmetic, a value
     that is an id drawn from the running registry; None otherwise.  Positive rule, independent of how the list is built."""
@@ -207,6 +208,21 @@ def prefix_idiom(ctx: Ctx, f, lst: Optional[str], nump: str, frame=None, env=Non
     def reversed_running(e: ast.AST) -> Optional[bool]:
         """True: reversed view of the running registry; False: the registry in another order; None: something else"""
         e = live_value(e)
+        if isinstance(e, ast.Name) and e.id in sc.params and env and e.id in env and not sc.defs.get(e.id):
+            # a parameter of the helper that builds the list (`first_n(iterable, num)`): what the call passes for it
+            fr2, env2, leaf = ctx.vals.trace(frame, env, e)
+            if fr2 is not frame:
+                class _P2:
+                    @staticmethod
+                    def of(x):
+                        p_ = ctx.eff.paths(fr2).of(x)
+                        return ctx.eff.rebase(p_, fr2, env2) if p_ is not None else None
+                nonlocal P
+                saved, P = P, _P2
+                try:
+                    return reversed_running(leaf) if not isinstance(leaf, ast.Name) or leaf is not e else None
+                finally:
+                    P = saved
         if isinstance(e, ast.Call) and isinstance(e.func, ast.Name) and e.func.id == "reversed" and len(e.args) == 1:
             inner = e.args[0]
             if isinstance(inner, ast.Call) and isinstance(inner.func, ast.Name) and inner.func.id in ("list", "tuple") and len(inner.args) == 1:
